@@ -2,14 +2,15 @@
   Schema JSON codec — transcription of x/exp/schema/internal/json/json.go at the level of the Go structs
   that `encoding/json` reads and writes (`jsonNamespace`, `jsonEntityType`, `jsonAction`, `jsonType`, …).
 
-  * `marshalSchema` / `unmarshalSchema` are `Schema.MarshalJSON` / `UnmarshalJSON` up to the struct tree.
+  * `marshalSchema` / `unmarshalSchema` are `Schema.MarshalJSON` / `UnmarshalJSON` up to the struct tree;
+    `checkNames` & co. transcribe names.go (the JSON parser accepts exactly the names the text format can express).
   * Fields tagged `omitempty` cannot distinguish nil from empty after a trip through JSON; the struct model
-    identifies the two (lists, `""`), and keeps `Option` where Go has a pointer.
+    identifies the two (lists, `""`), and keeps `Option` where Go has a pointer (`shape`, `tags`, `appliesTo`, `enum`).
   * `renderSchemaJson` prints the struct tree the way `encoding/json` does (struct fields in declaration order,
     map keys sorted, Go's string escaping incl. `\\u003c` for `<`), so that the driver can compare BYTES.
   `encoding/json` itself (text ↔ struct tree) is trusted, not modelled.
 -/
-import CedarGo.Model.Schema.Ast
+import CedarGo.Model.Schema.Text
 namespace CedarGo.Schema
 
 mutual
@@ -34,7 +35,7 @@ structure JEntityType where
   shape : Option JType := none
   tags : Option JType := none
   anns : Anns := []
-  enum : List String := []
+  enum : Option (List String) := none     -- `*[]string`: absent vs. present (possibly empty)
 deriving DecidableEq
 
 structure JAppliesTo where
@@ -94,7 +95,7 @@ def marshalEntity (e : Entity) : JEntityType :=
   { anns := e.anns, memberOfTypes := sortStrs e.parents,
     shape := e.shape.map fun as => marshalTy (.record as), tags := e.tags.map marshalTy }
 
-def marshalEnum (e : Enum) : JEntityType := { anns := e.anns, enum := e.values }
+def marshalEnum (e : Enum) : JEntityType := { anns := e.anns, enum := some e.values }
 
 def marshalAction (a : Action) : JAction :=
   { anns := a.anns, memberOf := a.parents.map fun p => (p.2, p.1),
@@ -116,6 +117,73 @@ def hasBareDecls (d : Namespace) : Bool :=
 def marshalSchema (s : Schema) : JSchema :=
   (if hasBareDecls s.bare then [("", marshalNamespace { s.bare with anns := [] })] else []) ++
   s.namespaces.map fun nd => (nd.1, marshalNamespace nd.2)
+
+/-! ## names (`names.go`): the JSON parser accepts exactly the names the text format can express -/
+
+def reservedTypeNamesJ : List String := ["Bool", "Boolean", "Entity", "Extension", "Long", "Record", "Set", "String"]
+
+/-- `isIdentLike`: `[_a-zA-Z][_a-zA-Z0-9]*`, reserved keywords included (annotation keys) -/
+def isIdentLike (s : String) : Bool :=
+  match s.toList with
+  | [] => false
+  | c :: cs => isIdentStart c && cs.all isIdentContinue
+
+/-- `strings.Split(s, "::")` on characters: leftmost, non-overlapping separators (`cur` = the component being read, reversed) -/
+def splitSepAux : List Char → List Char → List (List Char)
+  | cur, [] => [cur.reverse]
+  | cur, [c] => [(c :: cur).reverse]
+  | cur, c :: d :: rest =>
+    if c = ':' ∧ d = ':' then cur.reverse :: splitSepAux [] rest
+    else splitSepAux (c :: cur) (d :: rest)
+
+def splitSep (s : String) : List String := (splitSepAux [] s.toList).map String.ofList
+
+/-- `isPath`: IDENT { '::' IDENT } (`isIdent` is `isValidIdent` of the printer) -/
+def isPathJ (s : String) : Bool := (splitSep s).all isValidIdent
+
+/-- `isTypeName`: a path whose first component may also be `__cedar` (`strings.Cut` at the first "::", then `isPath` of
+    the rest: the same components as one `Split`) -/
+def isTypeNameJ (s : String) : Bool :=
+  match splitSep s with
+  | [] => false
+  | first :: rest => (first == "__cedar" || isValidIdent first) && rest.all isValidIdent
+
+/-- `checkAnnotations` -/
+def annKeysOk (a : Anns) : Bool := a.all fun kv => isIdentLike kv.1
+
+mutual
+/-- `checkType` -/
+def jtypeNamesOk : JType → Bool
+  | .mk type element attrs name =>
+    if type = "String" ∨ type = "Long" ∨ type = "Boolean" ∨ type = "Extension" then true
+    else if type = "Set" then
+      match element with
+      | .none => true
+      | .some e => jtypeNamesOk e
+    else if type = "Record" then jattrsNamesOk attrs
+    else if type = "Entity" ∨ type = "EntityOrCommon" then isTypeNameJ name
+    else isTypeNameJ type
+/-- `checkAttributes` -/
+def jattrsNamesOk : JAttrs → Bool
+  | .nil => true
+  | .cons _ t _ a rest => annKeysOk a && jtypeNamesOk t && jattrsNamesOk rest
+end
+
+def jshapeNamesOk : JType → Bool
+  | .mk _ _ attrs _ => jattrsNamesOk attrs
+
+/-- `checkNames` (accept/reject; Go reports the first offender in key order) -/
+def checkNames (j : JNamespace) : Bool :=
+  annKeysOk j.anns &&
+  j.commonTypes.all (fun c => isValidIdent c.1 && !reservedTypeNamesJ.contains c.1 && annKeysOk c.2.anns && jtypeNamesOk c.2.ty) &&
+  j.entityTypes.all (fun e => isValidIdent e.1 && annKeysOk e.2.anns && e.2.memberOfTypes.all isTypeNameJ &&
+    (match e.2.shape with | some t => jshapeNamesOk t | none => true) &&
+    (match e.2.tags with | some t => jtypeNamesOk t | none => true)) &&
+  j.actions.all (fun a => annKeysOk a.2.anns && a.2.memberOf.all (fun p => p.2 = "" || isTypeNameJ p.2) &&
+    (match a.2.appliesTo with
+     | some ap => ap.principalTypes.all isTypeNameJ && ap.resourceTypes.all isTypeNameJ &&
+        (match ap.context with | some t => jtypeNamesOk t | none => true)
+     | none => true))
 
 /-! ## unmarshal -/
 
@@ -170,23 +238,31 @@ def unmarshalAction (j : JAction) : Except String Action := do
     .ok ({ principals := a.principalTypes, resources := a.resourceTypes, context := ctx } : AppliesTo)) j.appliesTo
   .ok { anns := j.anns, parents := j.memberOf.map fun p => (p.2, p.1), appliesTo := ap }
 
-/-- `unmarshalNamespace`: an `entityTypes` entry with a non-empty `enum` list is an enum, anything else an entity -/
-def unmarshalNamespace (j : JNamespace) : Except String Namespace := do
+/-- the conversion loops of `unmarshalNamespace`: an `entityTypes` entry with an `enum` member is an enum, anything else
+    an entity -/
+def unmarshalNamespaceCore (j : JNamespace) : Except String Namespace := do
   let cts ← j.commonTypes.mapM fun c => do
     let t ← unmarshalTy c.2.ty
     .ok (c.1, ({ anns := c.2.anns, ty := t } : CommonType))
-  let ents ← (j.entityTypes.filter fun e => e.2.enum.isEmpty).mapM fun e => do
+  let ents ← (j.entityTypes.filter fun e => e.2.enum.isNone).mapM fun e => do
     let x ← unmarshalEntity e.2
     .ok (e.1, x)
-  let enums := (j.entityTypes.filter fun e => !e.2.enum.isEmpty).map fun e =>
-    (e.1, ({ anns := e.2.anns, values := e.2.enum } : Enum))
+  let enums := j.entityTypes.filterMap fun e =>
+    e.2.enum.map fun vs => (e.1, ({ anns := e.2.anns, values := vs } : Enum))
   let acts ← j.actions.mapM fun a => do
     let x ← unmarshalAction a.2
     .ok (a.1, x)
   .ok { anns := j.anns, entities := ents, enums := enums, actions := acts, commonTypes := cts }
 
-/-- `Schema.UnmarshalJSON` from the struct tree -/
-def unmarshalSchema (j : JSchema) : Except String Schema := do
+/-- `unmarshalNamespace`: names are checked first (`checkNames`); an empty `enum` list is an error (the grammar requires
+    at least one value) -/
+def unmarshalNamespace (j : JNamespace) : Except String Namespace :=
+  if !checkNames j then .error "invalid name"
+  else if j.entityTypes.any (fun e => e.2.enum == some []) then .error "an enum entity type needs at least one value"
+  else unmarshalNamespaceCore j
+
+/-- the loop of `Schema.UnmarshalJSON` over the namespaces -/
+def unmarshalSchemaCore (j : JSchema) : Except String Schema := do
   let nss ← j.mapM fun nd => do
     let d ← unmarshalNamespace nd.2
     .ok (nd.1, d)
@@ -194,6 +270,11 @@ def unmarshalSchema (j : JSchema) : Except String Schema := do
     | some d => { d with anns := [] }
     | none => {}
   .ok { bare := bare, namespaces := nss.filter fun nd => nd.1 ≠ "" }
+
+/-- `Schema.UnmarshalJSON` from the struct tree: every key but "" must be a namespace name -/
+def unmarshalSchema (j : JSchema) : Except String Schema :=
+  if j.any (fun nd => nd.1 ≠ "" && !isPathJ nd.1) then .error "not a valid namespace name"
+  else unmarshalSchemaCore j
 
 /-! ## rendering as `encoding/json` does -/
 
@@ -253,7 +334,7 @@ def renderJEntityType (e : JEntityType) : String :=
     (match e.shape with | some t => ["\"shape\":" ++ renderJType t] | none => []) ++
     (match e.tags with | some t => ["\"tags\":" ++ renderJType t] | none => []) ++
     (if e.anns.isEmpty then [] else ["\"annotations\":" ++ renderStrMap e.anns]) ++
-    (if e.enum.isEmpty then [] else ["\"enum\":" ++ renderStrList e.enum]))
+    (match e.enum with | some vs => ["\"enum\":" ++ renderStrList vs] | none => []))
 
 def renderJAction (a : JAction) : String :=
   renderObj (
